@@ -10,6 +10,7 @@ import (
 	"path/filepath"
 	"sort"
 	"strings"
+	"time"
 
 	"github.com/hashicorp/go-slug/sourceaddrs"
 	"github.com/hashicorp/go-slug/sourcebundle"
@@ -81,7 +82,12 @@ func runPrep(base string, c *prCase) (obs *prObs, infra string) {
 	if err != nil {
 		return nil, err.Error()
 	}
-	defer arena.RemoveAll(root)
+	hung := false
+	defer func() {
+		if !hung {
+			arena.RemoveAll(root)
+		}
+	}()
 	var outer, sub []arena.PN
 	for _, pn := range c.Tree {
 		if len(pn.P) >= 3 && pn.P[0] == "A" && pn.P[1] == "T" && pn.P[2] == "w" {
@@ -99,7 +105,9 @@ func runPrep(base string, c *prCase) (obs *prObs, infra string) {
 	obs = &prObs{Tree: c.Tree, Rules: c.Rules, Lines: c.Lines, Outside: []string{}}
 	target := g.Abs(root, []string{"A", "T"})
 	ft := &prFetcher{g: g, root: root, sub: sub}
-	func() {
+	done := make(chan struct{})
+	go func() {
+		defer close(done)
 		defer func() {
 			if r := recover(); r != nil {
 				obs.St = "panic"
@@ -124,6 +132,13 @@ func runPrep(base string, c *prCase) (obs *prObs, infra string) {
 		}
 		obs.St = "ok"
 	}()
+	select {
+	case <-done:
+	case <-time.After(15 * time.Second):
+		// the build blocks (for instance on a fifo that the checksum step opens): an observation, not an infrastructure failure
+		hung = true
+		return &prObs{Tree: c.Tree, Rules: c.Rules, Lines: c.Lines, St: "hang", Fs: []arena.PN{}, Outside: []string{}, Err: "build did not return within 15 s"}, ""
+	}
 	if ft.err != nil {
 		return nil, "fetch setup: " + ft.err.Error()
 	}
